@@ -367,7 +367,7 @@ def run(tier, seed, started):
         shutil.rmtree(_TMP, ignore_errors=True)
     c = res.counters
     if c.get('executions', 0) < 20000 or c.get('max:failovers', 0) < 2:
-        raise common.Broken(f'vacuous C18 run: {c}')
+        common.vacuous(PROP, res, f'vacuous C18 run: {c}')
     coverage = {
         'evaluations': c['executions'],
         'distinct_nontrivial': c['with_faults'],
